@@ -651,6 +651,11 @@ tun_setip(const char *ip, const char *other_ip, int netbits)
 #endif
 #endif
 
+	if (netbits < 1 || netbits > 32) {
+		fprintf(stderr, "Invalid netmask: /%d!\n", netbits);
+		return 1;
+	}
+
 	netmask = 0;
 	for (i = 0; i < netbits; i++) {
 		netmask = (netmask << 1) | 1;
